@@ -61,6 +61,9 @@ SNIPPETS = [
     ("exec", "f = [lambda: 0, lambda: 0]; g = lambda: (lambda: (1)); h = lambda a: (lambda: (\n 1))\n"),
     ("exec", "def f(a, *args, key=None, **kw):\n    return a, args, key, kw\n"),
     ("exec", "x = '\\udc80'; y = '\\ud800\\udc00'; z = '\\ud800\\U0001fad0'\ndef f():\n    '\\udc80 doc'\n"),
+    # comprehension scopes whose first constant is neither None nor a string and was optimised away; the first LOADED
+    # constant is a string at index 1 (the encoder's "prepend None" rule must not apply)
+    ("exec", "x = []\na = ['a' for c in x if 5]\nb = {c: 'a' for c in x if 1}\nc = ['a' if 5 else 'b' for c in x]\nd = list('a' for c in x if 2.5)\n"),
     # dead lines after the final return (<=3.9: an _additional_line with additional offsets)
     ("exec", "def f():\n    return 1\n    x = 2\n    y = 3\n"),
     # co_consts holds two equal tuples on <=3.9 (folded defaults) and both are referenced, one of them again later
@@ -149,6 +152,8 @@ def collect_events(rep: Report, tier: str, wd, pool: Pool, gen_cases, extra_sour
             jobs[v].append(("decode.units_to_file", {"cases": [{kk: c.get(kk, False) for kk in ("id", "units", "alt", "scope")} for c in ch], "path": f}))
         srcs = [{"id": f"ex:{n}", "src": s, "mode": "exec", "recode": True} for n, s in REPO_EXAMPLES.items()]
         srcs += [{"id": f"sn:{i}", "src": s, "mode": m, "optimize": o, "recode": o == 0} for i, (m, s) in enumerate(SNIPPETS) for o in (0, 2)]
+        # the same programs with every def / class / lambda line moved 40 lines down: body lines below co_firstlineno
+        srcs += [{"id": f"sh:{i}", "src": s, "mode": m, "shift_defs": 40} for i, (m, s) in enumerate(SNIPPETS) if m == "exec"]
         if extra_sources and not extra_on_every_worker:
             srcs += extra_sources.get(v, [])
         if extra_sources and extra_on_every_worker:
